@@ -644,6 +644,11 @@ class ITerm2Image(GraphicsImage, metaclass=ITerm2ImageMeta):
                         for frame_no in range(img.n_frames):
                             img.seek(frame_no)
                             disposal.append(getattr(img, "disposal_method", 0))
+                    elif img.format == "PNG":
+                        # The frames are read as fully composed canvases; they must
+                        # not be blended with (or disposed of as) what the source's
+                        # last frame happens to specify
+                        save_args.update(disposal=0, blend=0)
                     try:
                         img.save(
                             compressed_image, img.format, save_all=True, **save_args
